@@ -22,7 +22,11 @@ Abstractions (each is either compared on every run or named in notes/C10.md):
 * the two `std::priority_queue`s are sorted lists; the order among equal keys is unspecified in
   C++ and fixed (FIFO) here.
 * the outer query loops run on fuel = number of nodes of the tree (every node is queued at most
-  once); running out of fuel with a non-empty queue is reported, never hidden.
+  once); running out of fuel with a non-empty queue is reported, never hidden — and proved
+  impossible for every child order that is a permutation (`searchInternal_not_exhausted`).
+* `Node::nearestK`/`nearestKInternal` and `Node::nearestR`/`nearestRInternal` are the same traversal
+  twice in the C++; the model has it once, parameterised by `Coll` (see there).
+The tree-building operations are in `Model/NNGnatOps.lean`.
 -/
 namespace OmplModel.NN
 
